@@ -406,6 +406,18 @@ class Assembler:
         # split annotations
         contract, loops, closures, proofs = [], {}, {}, []
         cur = contract
+        ann2 = []
+        for (tl, ln) in ann:
+            if ln.strip().startswith('//@contract'):
+                cf = os.path.join(SPECS, 'contracts', ln.strip().split()[1])
+                for k, cl in enumerate(open(cf).read().rstrip('\n').split('\n')):
+                    ann2.append((tl, cl))
+            else:
+                ann2.append((tl, ln))
+        if 'assumed' in opts:
+            # the contract is an assumption in this unit: its clauses are not obligations here
+            ann2 = [(tl, re.sub(r'//\s*@ob\s+\S+\s+\S+\s*$', '// (assumed here; proved or checked elsewhere: %s)' % opts['assumed'], ln)) for (tl, ln) in ann2]
+        ann = ann2
         for (tl, ln) in ann:
             s = ln.strip()
             if s.startswith('//@loop'):
